@@ -12,6 +12,7 @@ import (
 	"errors"
 	"fmt"
 	"io"
+	"math/rand"
 	"net"
 	"net/http"
 	"sort"
@@ -104,13 +105,14 @@ func CanonHeaders(hs []HV, drop func(HV) bool) string {
 }
 
 // ClientDrop leaves out what the proxy's own HTTP server adds for its hop to the client: Date, the
-// body framing (Content-Length, Transfer-Encoding) and "Connection: close".
+// body framing (Content-Length, Transfer-Encoding) and "Connection: close" / "Connection: keep-alive" (the latter
+// is what net/http answers to an HTTP/1.0 keep-alive client).
 func ClientDrop(h HV) bool {
 	switch h.Name {
 	case "Date", "Content-Length", "Transfer-Encoding":
 		return true
 	case "Connection":
-		return h.Value == "close"
+		return h.Value == "close" || h.Value == "keep-alive"
 	}
 	return false
 }
@@ -264,8 +266,27 @@ type Backend struct {
 	closed bool
 }
 
-func NewBackend() (*Backend, error) {
+// Listen retries for a while when the loopback port range is momentarily exhausted.
+func Listen() (net.Listener, error) {
 	ln, err := net.Listen("tcp", "127.0.0.1:0")
+	if err == nil {
+		return ln, nil
+	}
+	// ephemeral range full of TIME_WAIT sockets (many harnesses share the host): take a port below it
+	for i := 0; i < 200; i++ {
+		port := 10000 + rand.Intn(22000)
+		if ln, err = net.Listen("tcp", fmt.Sprintf("127.0.0.1:%d", port)); err == nil {
+			return ln, nil
+		}
+		if i > 100 {
+			time.Sleep(20 * time.Millisecond)
+		}
+	}
+	return nil, err
+}
+
+func NewBackend() (*Backend, error) {
+	ln, err := Listen()
 	if err != nil {
 		return nil, err
 	}
@@ -336,16 +357,9 @@ func Reset(c net.Conn) {
 	c.Close()
 }
 
-// ClosedAddr returns a loopback address on which nothing listens.
-func ClosedAddr() string {
-	ln, err := net.Listen("tcp", "127.0.0.1:0")
-	if err != nil {
-		return "127.0.0.1:1"
-	}
-	a := ln.Addr().String()
-	ln.Close()
-	return a
-}
+// ClosedAddr returns a loopback address on which nothing listens: the reserved port 1 (tcpmux). A port obtained
+// by listen+close would be handed to a neighbouring harness process within milliseconds.
+func ClosedAddr() string { return "127.0.0.1:1" }
 
 // ---------------------------------------------------------------------------------------------
 // raw client
@@ -364,10 +378,15 @@ type Result struct {
 // an empty Result.
 func Do(addr, method string, raw []byte, deadline time.Duration, afterWrite func(c net.Conn) bool) (Result, error) {
 	c, err := net.DialTimeout("tcp", addr, deadline)
+	for i := 0; err != nil && i < 20; i++ { // EADDRNOTAVAIL under port pressure
+		time.Sleep(25 * time.Millisecond)
+		c, err = net.DialTimeout("tcp", addr, deadline)
+	}
 	if err != nil {
 		return Result{}, err
 	}
-	defer c.Close()
+	// close with RST: thousands of short client connections must not pile up in TIME_WAIT
+	defer Reset(c)
 	c.SetDeadline(time.Now().Add(deadline))
 	if _, err := c.Write(raw); err != nil {
 		return Result{}, err
